@@ -9,7 +9,9 @@ CONSTANTS
   NS3 = 24
   NSBIG = 12
   NCAP = 10
+  HOF = 1
   MAXD = 1
+  MAXDSLOW = 1
   LEN = 1
   MUTANT = FALSE
 INVARIANTS TypeOK Emit Proto
